@@ -98,3 +98,12 @@ package memkv
 //@   ensures [all-or-nothing] old(b.err) != nil ==> err == old(b.err) && skl_writes == old(skl_writes)
 //@   ensures [applied] old(b.err) == nil ==> err == nil
 //@   loop 0 invariant [armed-batches-never-get-here] old(b.err) == nil
+
+// ---- C17 / C11: a ttl belongs to the binding it was written with ----
+// The unconditional delete is the engine's Del API and nothing else: in particular the expiry timer
+// must not use it, it may only remove the binding that scheduled it.
+//@ func (*store).del(key) (err)
+//@   props C17 C11
+//@   nosafety
+//@   modifies *
+//@   callers_only (*store).Del
